@@ -1037,6 +1037,11 @@ func kahnsAlgorithmUsingAuthEvents(events []*stateResV2ConflictedPowerLevel) []*
 	inDegree := make(map[string]int, len(events))
 
 	for _, event := range events {
+		// An event that is listed more than once must only be counted once,
+		// otherwise its auth events never reach an in-degree of zero.
+		if _, seen := eventMap[event.eventID]; seen {
+			continue
+		}
 		// For each event that we have been given, add it to the event map so that
 		// we can easily refer back to it by event ID later.
 		eventMap[event.eventID] = event
@@ -1123,6 +1128,11 @@ func kahnsAlgorithmUsingPrevEvents(events []*stateResV2ConflictedOther) []*state
 	inDegree := make(map[string]int, len(events))
 
 	for _, event := range events {
+		// An event that is listed more than once must only be counted once,
+		// otherwise its prev events never reach an in-degree of zero.
+		if _, seen := eventMap[event.eventID]; seen {
+			continue
+		}
 		// For each event that we have been given, add it to the event map so that
 		// we can easily refer back to it by event ID later.
 		eventMap[event.eventID] = event
